@@ -175,9 +175,13 @@ def judge(r, case, rec, state):
         from stepup.core.enums import ReturnCode
 
         rc = r.result.returncode
-        if not (rc & ReturnCode.FAILED) or not (rc & ReturnCode.DRAINED):
-            raise Violation(f"{PROPERTY}/input-change-without-failed-and-drained",
-                            f"drain announced, return code {rc!r}")
+        # The step that saw the change fails (FAIL event) and dispatch stops (DRAINED bit).
+        # The FAILED bit is not required: a second consumer that notices the same change makes
+        # the first one pending again, which C19 accounts for.
+        if not (rc & ReturnCode.DRAINED) or not r.result.tags("FAIL"):
+            raise Violation(f"{PROPERTY}/input-change-without-fail-and-drain",
+                            f"drain announced, return code {rc!r}, FAIL events "
+                            f"{r.result.tags('FAIL')}")
         rec.event("drained-for-input-change")
 
 
